@@ -17,6 +17,7 @@ func TestWorker(t *testing.T) {
 	if jf == "" {
 		t.Skip("no VERIF_JOB")
 	}
+	curT = t
 	b, err := os.ReadFile(jf)
 	if err != nil {
 		t.Fatal(err)
@@ -40,6 +41,24 @@ func TestWorker(t *testing.T) {
 		}
 	}
 	defer bw.Flush()
+	var curItem, curSucc int = -1, -1
+	var curAct *pt.Action
+	exitWith = func(v *pt.Violation) {
+		if curCase >= 0 { // case-enumerating shard job
+			cc := curCase
+			emit(pt.Line{Start: &cc, I: cc, Viol: v}, true)
+			of.Close()
+			os.Exit(7)
+		}
+		ci, ck := curItem, curSucc
+		l := pt.Line{Start: &ci, I: ci, Viol: v, Act: curAct}
+		if ck >= 0 {
+			l.A = &ck
+		}
+		emit(l, true)
+		of.Close()
+		os.Exit(7)
+	}
 	switch job.Kind {
 	case "expand":
 		f, ok := registry[job.Check]
@@ -47,18 +66,36 @@ func TestWorker(t *testing.T) {
 			emit(pt.Line{Err: "unknown check " + job.Check}, true)
 			return
 		}
-		var keys []string
-		if len(job.Extra) > 0 {
-			json.Unmarshal(job.Extra, &keys)
+		var ex struct {
+			Keys []string         `json:"keys"`
+			Skip map[string][]int `json:"skip"` // item index -> successor indices that killed a worker
 		}
+		if len(job.Extra) > 0 {
+			json.Unmarshal(job.Extra, &ex)
+		}
+		keys := ex.Keys
 		for i, h := range job.Items {
 			ii := i
+			curItem, curSucc, curAct = i, -1, nil
 			emit(pt.Line{Start: &ii, I: i}, true)
 			want := ""
 			if i < len(keys) {
 				want = keys[i]
 			}
-			succs, err := expandItem(f, job.Params, h, want)
+			skip := map[int]bool{}
+			for _, k := range ex.Skip[fmt.Sprint(i)] {
+				skip[k] = true
+			}
+			var journal func(k int, a pt.Action)
+			if bubbleChecks[job.Check] {
+				journal = func(k int, a pt.Action) {
+					kk := k
+					aa := a
+					curSucc, curAct = k, &aa
+					emit(pt.Line{Start: &ii, I: i, A: &kk, Act: &aa}, true)
+				}
+			}
+			succs, err := expandItem(job.Check, f, job.Params, h, want, journal, skip)
 			if err != nil {
 				emit(pt.Line{I: i, Err: err.Error()}, true)
 				continue
@@ -72,7 +109,8 @@ func TestWorker(t *testing.T) {
 			return
 		}
 		for i, h := range job.Items {
-			info := replayVerbose(f, job.Params, h)
+			var info ReplayInfo
+			inEnv(job.Check, func() { info = replayVerbose(f, job.Params, h) })
 			jb, _ := json.Marshal(info)
 			emit(pt.Line{I: i, Info: jb, Done: true}, true)
 		}
@@ -84,6 +122,9 @@ func TestWorker(t *testing.T) {
 		}
 	}
 }
+
+// curCase is the case index in flight of a case-enumerating shard job (-1 otherwise).
+var curCase = -1
 
 // jobKinds holds the non-BFS job kinds (schedule search shards, input enumeration shards...).
 var jobKinds = map[string]func(job *pt.Job, emit func(pt.Line, bool)){}
@@ -103,10 +144,12 @@ func replayVerbose(f Factory, params json.RawMessage, h []pt.Action) ReplayInfo 
 		info.Steps = append(info.Steps, fmt.Sprintf("%d %s -> %s", i, a, m.Outcome()))
 		if v != nil {
 			info.Viol = v
+			shutdown(m)
 			return info
 		}
 	}
 	info.Key, _ = m.Key()
 	info.Viol = safeClose(m)
+	shutdown(m)
 	return info
 }
